@@ -351,7 +351,7 @@ def ref_mode(ci, mode, encrypt, iv, data, off=0, sb=None):
 #  D_ENCRYPT lookup order, shift schedule and the bitsliced AES S-box circuits from the source text)
 
 def _cexpr_tokens(s):
-    return re.findall(r"0[xX][0-9a-fA-F]+[uUlL]*|\d+[uUlL]*|[A-Za-z_]\w*|<<|>>|[()^&|~*+\-=;]", s)
+    return re.findall(r"0[xX][0-9a-fA-F]+[uUlL]*|\d+[uUlL]*|[A-Za-z_][\w.]*|<<|>>|[()^&|~*+\-=;]", s)
 
 class _P:
     """C expressions over & ^ | << >> with constants and identifiers -> Bitvec.exp (C precedence)"""
@@ -388,16 +388,22 @@ class _P:
             a = self.expr(); self.eat(")"); return a
         m = re.match(r"(0[xX][0-9a-fA-F]+|\d+)[uUlL]*$", tok)
         if m: return "(Cst %d)" % int(m.group(1), 0)
-        if re.match(r"[A-Za-z_]\w*$", tok): return "(Var %d)" % self.var(tok)
+        if re.match(r"[A-Za-z_][\w.]*$", tok): return "(Var %d)" % self.var(tok)
         raise ValueError("unexpected token %r" % tok)
 
-def translate_straightline(body, width):
-    """body of a function of the form  T x, y, ...;  x = *w;  v = e; v op= e; ... *w = x;  -> list of (var, exp)"""
+def _rename(e, f):
+    return re.sub(r"\(Var (\d+)\)", lambda m: "(Var %d)" % f(int(m.group(1))), e)
+
+
+def translate_straightline(body, width, inp=r"\*\s*w", calls=None):
+    """body of the form  T x, y, ...;  x = <inp>;  v = e; v op= e; ... <inp> = x;  -> list of (var, exp), out var, #vars.
+    Union views A.b[i] of a uint64_t A.d (little-endian host) and calls f(&v) of already translated circuits
+    (calls: name -> (stmts, out, nvars)) are expanded in place."""
     names = {}
     def var(n):
         if n not in names: names[n] = len(names)
         return names[n]
-    var("IN")                       # variable 0 = *w on entry
+    var("IN")                       # variable 0 = the word on entry
     stmts = []
     out = None
     for st in body.split(";"):
@@ -406,20 +412,51 @@ def translate_straightline(body, width):
         if re.match(r"(uint32_t|uint64_t)\s", st):
             for n in re.sub(r"^(uint32_t|uint64_t)\s+", "", st).split(","): var(n.strip())
             continue
-        m = re.match(r"(\w+)\s*=\s*\*\s*w$", st)
+        if re.match(r"(openssl_uni|int)\s+\w+$", st): continue
+        m = re.match(r"([\w.]+)\s*=\s*" + inp + r"$", st)
         if m: stmts.append((var(m.group(1)), "(Var 0)")); continue
-        m = re.match(r"\*\s*w\s*=\s*(\w+)$", st)
+        m = re.match(inp + r"\s*=\s*([\w.]+)$", st)
         if m: out = var(m.group(1)); continue
-        m = re.match(r"(\w+)\s*(\^=|&=|\|=|=)\s*(.*)$", st, re.S)
+        m = re.match(r"(\w+)\s*\(\s*&\s*([\w.]+)\s*\)$", st)
+        if m:
+            if not calls or m.group(1) not in calls: raise ValueError("call of %s" % m.group(1))
+            cst, cout, cn = calls[m.group(1)]
+            tgt = var(m.group(2)); base = len(names)
+            for k in range(1, cn): var("%s#%d#%d" % (m.group(1), len(stmts), k))
+            f = lambda v: tgt if v == 0 else base + v - 1
+            for v, e in cst: stmts.append((f(v), _rename(e, f)))
+            stmts.append((tgt, "(Var %d)" % f(cout)))
+            continue
+        m = re.match(r"(\w+)\.b\[(\d)\]\s*\^=\s*(\w+)\.b\[(\d)\]$", st)
+        if m:
+            a, i, b, j = var(m.group(1) + ".d"), int(m.group(2)), var(m.group(3) + ".d"), int(m.group(4))
+            stmts.append((a, "(Xor (Var %d) (Shl %d (And (Shr (Var %d) %d) (Cst 255)) %d))" % (a, width, b, 8 * j, 8 * i)))
+            continue
+        m = re.match(r"([\w.]+)\s*(\^=|&=|\|=|-=|=)\s*(.*)$", st, re.S)
         if not m: raise ValueError("statement not understood: %r" % st)
         v, op, rhs = var(m.group(1)), m.group(2), m.group(3)
         p = _P(_cexpr_tokens(rhs), width, var); e = p.expr()
         if p.peek() is not None: raise ValueError("trailing tokens in %r" % st)
-        if op != "=":
+        if op == "-=":
+            e = "(Sub %d (Var %d) %s)" % (width, v, e)
+        elif op != "=":
             e = "(%s (Var %d) %s)" % ({"^=": "Xor", "&=": "And", "|=": "Or"}[op], v, e)
         stmts.append((v, e))
-    if out is None: raise ValueError("no *w = x")
+    if out is None: raise ValueError("no store of the result")
     return stmts, out, len(names)
+
+
+def loop_body(body):
+    """the statements inside the single for (...) { ... } of a function body"""
+    m = re.search(r"for\s*\([^)]*\)\s*\{", body)
+    if not m: raise ValueError("no for loop")
+    i = m.end(); depth = 1
+    while depth:
+        if body[i] == "{": depth += 1
+        elif body[i] == "}": depth -= 1
+        i += 1
+    return body[m.end():i - 1]
+
 
 def function_body(src, name):
     m = re.search(r"static\s+void\s+" + name + r"\s*\([^)]*\)\s*\{", src)
@@ -501,17 +538,27 @@ def gen_params_text(repo, gen_inc, builddir):
            "Definition des_shifts1 : list nat := [%s]%%nat." % ";".join(map(str, shifts)),
            "Definition des_shifts2 : list nat := [%s]%%nat." % ";".join(map(str, shifts2)), ""]
     asrc = open(aes_c).read()
-    for fn, w in (("openssl_sub_u64", 64), ("openssl_inv_sub_u64", 64), ("openssl_sub_u32", 32), ("openssl_xtime_u64", 64)):
-        try:
-            stmts, outv, nv = translate_straightline(function_body(asrc, fn), w)
-        except ValueError as e:
-            if fn == "openssl_xtime_u64": continue
-            raise RuntimeError("%s: %s" % (fn, e))
+    done = {}
+    def emit(fn, stmts, outv):
         nm = fn.replace("openssl_", "aes_")
         txt.append("Definition %s_prog : prog :=\n  [ %s ].\nDefinition %s_out : nat := %d%%nat.\n" % (
             nm, ";\n    ".join("(%d%%nat, %s)" % (v, e) for v, e in stmts), nm, outv))
+    for fn, w in (("openssl_sub_u64", 64), ("openssl_inv_sub_u64", 64), ("openssl_sub_u32", 32),
+                  ("openssl_xtime_u64", 64), ("openssl_xtime_u32", 32)):
+        try:
+            stmts, outv, nv = translate_straightline(function_body(asrc, fn), w)
+        except ValueError as e:
+            raise RuntimeError("%s: %s" % (fn, e))
+        done[fn] = (stmts, outv, nv)
+        emit(fn, stmts, outv)
+    # one iteration of the column loop of (inv_)mix_columns: state[c] in, state[c] out, xtime expanded in place
+    for fn in ("openssl_mix_columns", "openssl_inv_mix_columns"):
+        try:
+            stmts, outv, nv = translate_straightline(loop_body(function_body(asrc, fn)), 64, inp=r"state\[c\]", calls=done)
+        except ValueError as e:
+            raise RuntimeError("%s: %s" % (fn, e))
+        emit(fn, stmts, outv)
     return "\n".join(txt)
-
 
 
 def gen_params(ctx):
@@ -1035,12 +1082,15 @@ TRUSTED_BASE = [
     "Impl_DES.v (macro bodies, statement order, C integer typing) - checked on every run by comparing the key schedule bytes "
     "left in the public context structures with the model's, and by the API-level differential run - and the text extractor "
     "of lib/props/c12.py (regular expressions over the macro bodies; a C program for the tables)",
-    "AES: the bitsliced S-box circuits openssl_sub_u64 / openssl_inv_sub_u64 / openssl_sub_u32 are translated statement by "
-    "statement from the C source on every run (small expression parser in lib/props/c12.py: trusted) and PROVED equal to "
-    "the FIPS-197 S-box on every byte lane for all inputs.  NOT modelled, covered by the differential run and the monitor "
-    "only: openssl_shift_row / inv_shift_row, openssl_mix_columns / inv_mix_columns and openssl_xtime_u64 on the packed "
-    "state, openssl_add_round_key, openssl_key_expansion (apart from its S-box), the round structure of openssl_cipher / "
-    "openssl_inv_cipher",
+    "AES: all of crypt/openssl/openssl_aes.c is modelled as coded (Impl_AES.v) and PROVED equal to FIPS-197 (Spec_AES.v) for "
+    "every 128/192/256-bit key and block, both directions (aes_impl_equals_spec, aes_inv_impl_equals_spec).  Re-extracted "
+    "from the C source on every run by the small statement/expression translator of lib/props/c12.py (trusted): the "
+    "straight-line circuits openssl_sub_u64 / openssl_inv_sub_u64 / openssl_sub_u32, openssl_xtime_u64 / _u32 and one "
+    "iteration of the column loops of openssl_mix_columns / openssl_inv_mix_columns (union byte views and xtime calls "
+    "expanded).  Transcribed by hand (trusted, compared with the code on every run through the round-key bytes of the public "
+    "context and the cipher output): the two-word state and its byte view, the byte loops of openssl_shift_row / "
+    "_inv_shift_row, openssl_add_round_key, openssl_rot_word, the loop of openssl_key_expansion, the round loops of "
+    "openssl_cipher / openssl_inv_cipher",
     "little-endian host (uint32_t/uint64_t views of byte buffers, the CTR nonce read as bytes); caller buffers do not alias",
 ]
 ASSUMPTIONS = ["input, output and iv buffers are distinct objects (in-place CBC decryption is not part of the documented use)",
@@ -1076,19 +1126,29 @@ EVIDENCE_NOTES = [
     "muggle_openssl_tdes_crypt (IP once, three DES_encrypt2, FP once) equals the E/D/E composition of the standard; "
     "aes_sbox_impl_equals_spec / aes_inv_sbox_impl_equals_spec / aes_subword_impl_equals_spec - the constant-time bitsliced "
     "circuits openssl_sub_u64, openssl_inv_sub_u64, openssl_sub_u32 equal the FIPS-197 S-box / inverse S-box on every byte for "
-    "all 2^64 / 2^32 words.  Method: the C code in a deep-embedded word language (Bitvec.v); a symbolic evaluator over GF(2)-affine "
+    "all 2^64 / 2^32 words; aes_impl_equals_spec / aes_inv_impl_equals_spec - muggle_openssl_aes_set_key + "
+    "muggle_openssl_aes_encrypt / _decrypt as coded equal KeyExpansion + Cipher / InvCipher of FIPS-197 for every "
+    "128/192/256-bit key and every block, with aes_key_expansion_impl_equals_spec (two 32-bit words per loop iteration, "
+    "rot_word, SubWord circuit, rcon by openssl_xtime_u32), aes_cipher_loop / aes_inv_cipher_loop (round loops for any round "
+    "keys), aes_mix_columns / aes_inv_mix_columns / aes_shift_row / aes_add_round_key / aes_xtime on the packed "
+    "uint64_t[2] state.  Method: the C code in a deep-embedded word language (Bitvec.v); a symbolic evaluator over GF(2)-affine "
     "forms of the input bits, proved sound, decides every bit permutation / selection (IP, FP, PC-1, rotations, E-window "
     "extraction, linear skb tables) by computation; 512-entry sweep for the SP tables; for the AES circuits a dependency analysis "
-    "(Bitdep.v, proved sound for two runs) shows byte-lane independence, then 256 values per lane are swept.  The tables, PERM_OP "
+    "(Bitdep.v, proved sound for two runs) shows byte-lane independence, then 256 values per lane are swept; xtime and "
+    "(Inv)MixColumns are GF(2)-linear and decided by the affine evaluator (extended by the 'b -= b >> 7' idiom, proved sound "
+    "via a 256-case arithmetic lemma) against the bit-level form of the specification; the key expansion by a simulation "
+    "between one loop iteration of the code and two steps of the standard, with the index arithmetic decided by computation "
+    "for the three key sizes.  The tables, PERM_OP "
     "arguments, lookup order, shift schedules and the S-box circuits come from coq/gen/Params_C12.v, regenerated from the "
     "working tree on every run: a changed table entry, mask or shift breaks these obligations (as well as the differential run).",
-    "COVERED BY THE DIFFERENTIAL RUN AND THE MONITOR ONLY: that the C code computes what the models compute where no "
-    "implementation-layer proof exists - AES ShiftRows / MixColumns / xtime / AddRoundKey on the packed 2 x uint64_t state, "
-    "the AES key expansion (apart from its S-box circuit) and the round loops of openssl_cipher / openssl_inv_cipher; the "
-    "hand-transcribed control structure of Impl_DES.v against openssl_des.c (additionally checked by comparing the key schedule "
-    "bytes of the public DES / 3DES context structures with the implementation-layer model on every setkey); memory safety of "
-    "the loops (ASan, exact-size heap buffers, aligned and misaligned).  crypt/internal/* is dead code in this configuration "
-    "(MUGGLE_CRYPT_OPTIMIZATION=1) and is not exercised.",
+    "COVERED BY THE DIFFERENTIAL RUN AND THE MONITOR ONLY: that the hand-transcribed control structure of the implementation "
+    "layer is the control structure of the C code (Impl_DES.v against openssl_des.c; in Impl_AES.v the state view, shift_row "
+    "byte loops, add_round_key, rot_word, key expansion loop and round loops against openssl_aes.c) - additionally checked on "
+    "every setkey by comparing the key schedule bytes of the public AES / DES / 3DES context structures with the "
+    "implementation-layer model; the mode loops of aes.c / des.c / tdes.c against Modes.v; memory safety of the loops "
+    "(ASan, exact-size heap buffers, aligned and misaligned).  Because that structure is not extracted, behaviour-preserving "
+    "rewrites of it (for <-> while, walking round-key pointer, % 4 <-> & 3) leave the obligations untouched.  "
+    "crypt/internal/* is dead code in this configuration (MUGGLE_CRYPT_OPTIMIZATION=1) and is not exercised.",
     "NOT COVERED: in-place operation (input == output), for which CBC decryption of the library would use the overwritten "
     "block as the next iv - the property and the headers do not promise it; big-endian hosts; lengths >= 2^32 - 16.",
     "Defect confirmed and repaired by fixes/C12-aes-null-offset.patch (committed in the repository as 'fix: reject NULL "
@@ -1115,14 +1175,14 @@ MANIFEST = {
                    "(validated in Coq against FIPS-197 A/B/C, SP 800-38A F.1-F.5, DES/TDEA vectors) + implementation = model "
                    "by a differential run of the extracted model against the public API compiled from the working tree under "
                    "ASan, plus an independent plain-Python AES/DES/3DES + SP 800-38A monitor.  Implementation layer: the DES / "
-                   "3DES code that runs (openssl_des.c: SP tables, skb tables, PERM_OP sequences, key schedule) and the bitsliced "
-                   "AES S-box circuits (openssl_aes.c), with tables and circuits re-extracted from the source on every run, are "
-                   "proved equal to the specification layer on all inputs."),
+                   "3DES code that runs (openssl_des.c: SP tables, skb tables, PERM_OP sequences, key schedule) and the whole "
+                   "constant-time AES (openssl_aes.c: bitsliced S-boxes, xtime, MixColumns, ShiftRows, key expansion, round loops), "
+                   "with tables and straight-line circuits re-extracted from the source on every run, are proved equal to the "
+                   "specification layer on all inputs."),
     "design_ref": "DESIGN.md section 6 / C12",
     "level_note": ("Trusted: Coq kernel (vm_compute for finite sweeps), extraction (ExtrOcamlBasic), the differential harness "
                    "and the Python reference; the hand transcription of openssl_des.c's control structure and the source-text "
-                   "extractor.  AES ShiftRows/MixColumns/AddRoundKey/key expansion on the packed state and the AES round loops are "
-                   "covered by the differential run and the monitor only, not by proof."),
+                   "extractor / translator."),
     "technique": ("Coq: generic mode-loop theorems by induction, AES inverse by complete finite sweeps lifted by lemmas, DES "
                   "inverse by a generic Feistel lemma; vm_compute known-answer validation; implementation layer in a deep-embedded "
                   "word language with verified symbolic evaluators (GF(2)-affine forms; bit dependencies) + table sweeps; "
